@@ -170,7 +170,7 @@ def answer (c : Cfg) (s : ADB) (ws : List String) : Op → String
   | .qNonce a => toString (getNonce s a).2
   | .qData a k =>
     let v := (getData s a k).2
-    if ws.head? == some "getstate" then toHex (toHash v) else toHex v
+    if ws.head? == some "getstate" then toHex (getState s a k).2 else toHex v
   | .qCommitted a k => toHex (toHash (getCommitted s a k).2)
   | .qSuicided a => b2s (hasSuicided s a).2
   | .qCode a => toHex (getCode s a).2
@@ -251,12 +251,12 @@ def stepLine (st : St) (line : String) : St × String :=
     match addr? a, nat? n with
     | some a, some n =>
       if (mget st.keys a).isNone then (st, "bad-op") else
-      let r := getBalance c s a
-      finish st r.1 (b2s (decide (r.2 ≥ n)))
+      let r := canTransfer c s a n
+      finish st r.1 (b2s r.2)
     | _, _ => (st, "bad-op")
   | ["iscontract", a] =>
     match addr? a with
-    | some a => let r := getCode s a; finish st r.1 (b2s (!r.2.isEmpty))
+    | some a => let r := isContract s a; finish st r.1 (b2s r.2)
     | none => (st, "bad-op")
   | _ =>
     match parseOp ws with
